@@ -121,7 +121,9 @@ func runC18(r *Run, p *Prog) {
 				continue
 			}
 			found := false
-			for _, cs := range callsIn(f, true) {
+			// (in its inlined view: the consuming call may sit in a helper, or in a method that the operation starts
+			// with `go`)
+			for _, cs := range callsIn(p.Inlined(f, nil), true) {
 				sc := cs.Common.StaticCallee()
 				if sc != nil && sc.Signature.Recv() != nil && isNamed(sc.Signature.Recv().Type(), "bufio", "Reader") && bufioConsumers[sc.Name()] {
 					found = true
